@@ -68,46 +68,54 @@ pub struct ParsedSolve {
     pub header: Vec<(String, String)>, // key = value lines of the problem block
     pub cone_lines: Vec<(String, u64, Vec<u64>, bool)>, // name, count, numels, elided
     pub settings_text: String,
+    pub cols: Vec<String>,
     pub rows: Vec<Vec<String>>,
     pub status: String,
     pub time: String,
 }
 
-/// split the output of several solves into per-solve blocks and parse them
+/// Split the output of several solves into per-solve blocks and parse them.
+/// The parser is keyed on the parts the property talks about (the "problem:" block,
+/// the settings block, the progress table, the footer) and is tolerant of everything
+/// else (banner text, additional lines, additional columns).
 pub fn parse_output(text: &str) -> Result<Vec<ParsedSolve>, String> {
     let lines: Vec<&str> = text.lines().collect();
+    // a block ends with the "solve time" line that follows a "Terminated" line
+    let mut blocks: Vec<&[&str]> = vec![];
+    let mut start = 0;
+    let mut seen_term = false;
+    for (i, l) in lines.iter().enumerate() {
+        if l.starts_with("Terminated with status = ") {
+            seen_term = true;
+        } else if seen_term && l.starts_with("solve time = ") {
+            blocks.push(&lines[start..=i]);
+            start = i + 1;
+            seen_term = false;
+        }
+    }
+    if lines[start..].iter().any(|l| !l.trim().is_empty()) {
+        return Err(format!(
+            "{} lines after the last complete footer (first: {:?})",
+            lines.len() - start,
+            lines[start..].iter().find(|l| !l.trim().is_empty())
+        ));
+    }
     let mut out = vec![];
-    let mut i = 0;
-    let dashes_short = "-------------------------------------------------------------";
-    while i < lines.len() {
-        // banner
-        if lines[i] != dashes_short {
-            return Err(format!("line {}: expected banner rule, got {:?}", i, lines[i]));
-        }
-        if i + 5 >= lines.len() || !lines[i + 1].contains("Clarabel.rs v") || lines[i + 5] != dashes_short {
-            return Err(format!("line {}: malformed banner", i));
-        }
-        i += 6;
+    for b in blocks {
         let mut p = ParsedSolve::default();
-        // optional presolve line, then "problem:" block
-        while i < lines.len() && lines[i] != "problem:" {
-            let l = lines[i];
-            if let Some(rest) = l.strip_prefix("presolve: removed ") {
+        let mut i = 0;
+        // presolve line (anywhere before the problem block)
+        let prob_at = b.iter().position(|l| l.trim() == "problem:").ok_or("no problem block")?;
+        for l in &b[..prob_at] {
+            if let Some(rest) = l.trim().strip_prefix("presolve: removed ") {
                 let k = rest.split(' ').next().unwrap_or("");
                 p.removed = Some(k.parse().map_err(|_| format!("bad presolve line {:?}", l))?);
-            } else if !l.is_empty() {
-                return Err(format!("line {}: unexpected {:?} before problem block", i, l));
             }
-            i += 1;
         }
-        if i >= lines.len() {
-            return Err("no problem block".to_string());
-        }
-        i += 1;
-        while i < lines.len() && !lines[i].is_empty() {
-            let l = lines[i];
+        i = prob_at + 1;
+        while i < b.len() && !b[i].trim().is_empty() {
+            let l = b[i];
             if let Some(rest) = l.strip_prefix("    : ") {
-                // "       Zero = 1,  numel = 2" / "numel = (1,2)" / "(1,2,3,4,...,9)"
                 let (name, rest) = rest.split_once('=').ok_or(format!("bad cone line {:?}", l))?;
                 let (count, rest) = rest.split_once(',').ok_or(format!("bad cone line {:?}", l))?;
                 let count: u64 = count.trim().parse().map_err(|_| format!("bad cone count {:?}", l))?;
@@ -123,43 +131,40 @@ pub fn parse_output(text: &str) -> Result<Vec<ParsedSolve>, String> {
                 p.cone_lines.push((name.trim().to_string(), count, nums, elided));
             } else if let Some((k, v)) = l.split_once('=') {
                 p.header.push((k.trim().to_string(), v.trim().to_string()));
-            } else {
-                return Err(format!("line {}: bad header line {:?}", i, l));
             }
             i += 1;
         }
-        // settings block up to the table header
-        i += 1;
-        if i >= lines.len() || lines[i] != "settings:" {
-            return Err(format!("line {}: expected settings block", i));
+        // settings block: from "settings:" to the table header
+        let table_at = b
+            .iter()
+            .position(|l| {
+                let mut t = l.split_whitespace();
+                t.next() == Some("iter") && l.contains("pcost")
+            })
+            .ok_or("no progress table header")?;
+        if let Some(set_at) = b.iter().position(|l| l.trim() == "settings:") {
+            if set_at < table_at {
+                p.settings_text = b[set_at..table_at].join("\n");
+            }
         }
-        let mut st = String::new();
-        while i < lines.len() && !lines[i].starts_with("iter    pcost") {
-            st.push_str(lines[i]);
-            st.push('\n');
+        p.cols = b[table_at].split_whitespace().map(|s| s.to_string()).collect();
+        i = table_at + 1;
+        if i < b.len() && b[i].starts_with("-----") {
             i += 1;
         }
-        p.settings_text = st;
-        if i + 1 >= lines.len() {
-            return Err("no iteration table".to_string());
-        }
-        i += 2; // header + rule
-        while i < lines.len() && !lines[i].starts_with("-----") {
-            p.rows.push(lines[i].split_whitespace().map(|s| s.to_string()).collect());
+        while i < b.len() && !b[i].starts_with("-----") && !b[i].starts_with("Terminated") {
+            if !b[i].trim().is_empty() {
+                p.rows.push(b[i].split_whitespace().map(|s| s.to_string()).collect());
+            }
             i += 1;
         }
-        if i + 2 >= lines.len() {
-            return Err("truncated footer".to_string());
+        for l in &b[i..] {
+            if let Some(s) = l.strip_prefix("Terminated with status = ") {
+                p.status = s.to_string();
+            } else if let Some(s) = l.strip_prefix("solve time = ") {
+                p.time = s.to_string();
+            }
         }
-        p.status = lines[i + 1]
-            .strip_prefix("Terminated with status = ")
-            .ok_or(format!("bad footer {:?}", lines[i + 1]))?
-            .to_string();
-        p.time = lines[i + 2]
-            .strip_prefix("solve time = ")
-            .ok_or(format!("bad footer {:?}", lines[i + 2]))?
-            .to_string();
-        i += 3;
         out.push(p);
     }
     Ok(out)
@@ -235,9 +240,19 @@ pub fn check_log(
 ) -> Vec<Violation> {
     let mut v = vec![];
     // ---- iteration column
-    let iters: Vec<Option<u32>> = parsed.rows.iter().map(|r| r.first().and_then(|s| s.parse().ok())).collect();
-    if iters.is_empty() || iters.iter().any(|i| i.is_none()) || parsed.rows.iter().any(|r| r.len() != 9) {
-        v.push(Violation::new("C20.table_malformed", format!("{}: rows {:?}", tag, parsed.rows)));
+    let col = |name: &str| parsed.cols.iter().position(|c| c == name);
+    let (Some(c_it), Some(c_pc), Some(c_dc), Some(c_pr), Some(c_dr)) =
+        (col("iter"), col("pcost"), col("dcost"), col("pres"), col("dres"))
+    else {
+        v.push(Violation::new(
+            "C20.table_malformed",
+            format!("{}: progress table header lacks iter/pcost/dcost/pres/dres: {:?}", tag, parsed.cols),
+        ));
+        return v;
+    };
+    let iters: Vec<Option<u32>> = parsed.rows.iter().map(|r| r.get(c_it).and_then(|s| s.parse().ok())).collect();
+    if iters.is_empty() || iters.iter().any(|i| i.is_none()) || parsed.rows.iter().any(|r| r.len() != parsed.cols.len()) {
+        v.push(Violation::new("C20.table_malformed", format!("{}: header {:?} rows {:?}", tag, parsed.cols, parsed.rows)));
         return v;
     }
     let iters: Vec<u32> = iters.into_iter().map(|i| i.unwrap()).collect();
@@ -256,9 +271,9 @@ pub fn check_log(
             | SolverStatus::AlmostDualInfeasible
     );
     let row_matches = |row: &Vec<String>| -> bool {
-        (infeasible || (agrees(&row[1], snap.obj_val, 5) && agrees(&row[2], snap.obj_val_dual, 5)))
-            && agrees(&row[4], snap.r_prim, 3)
-            && agrees(&row[5], snap.r_dual, 3)
+        (infeasible || (agrees(&row[c_pc], snap.obj_val, 5) && agrees(&row[c_dc], snap.obj_val_dual, 5)))
+            && agrees(&row[c_pr], snap.r_prim, 3)
+            && agrees(&row[c_dr], snap.r_dual, 3)
     };
     let last = parsed.rows.last().unwrap();
     if !row_matches(last) {
